@@ -38,6 +38,10 @@ std::string nest_bytes(int family, long d) {
         case 10: s = "{"; for (long i = 0; i < d; i++) { if (i) s += ","; s += "\"a\":{\"b\":2}"; } s += "}"; break;
         case 11: s = "["; for (long i = 0; i < d; i++) { if (i) s += ","; s += "[[],{}]"; } s += "]"; break;
         case 12: s = "{"; for (long i = 0; i < d; i++) { if (i) s += ","; s += "\"k\":[]"; } s += "}"; break;
+        // nesting that runs through a later element / member of every level (depth must be counted there as well)
+        case 13: for (long i = 0; i < d; i++) s += "[0,"; s += "1"; s.append((size_t)d, ']'); break;
+        case 14: for (long i = 0; i < d; i++) s += "{\"a\":0,\"b\":"; s += "1"; s.append((size_t)d, '}'); break;
+        case 15: for (long i = 0; i < d; i++) s += (i & 1) ? "{\"x\":[],\"y\":" : "[{},"; s += "null"; for (long i = d - 1; i >= 0; i--) s += (i & 1) ? "}" : "]"; break;
     }
     return s;
 }
@@ -131,8 +135,8 @@ struct XParse : Engine {
             for (int b = 0; b < 256; b++) { std::string x(1, (char)b); emit(x); emit("\"" + x + "\""); emit("1" + x); emit("[1" + x + "]"); emit(x + "1"); emit("\"\\" + x + "\""); emit("{\"" + x + "\":0}"); }
         } else if (stage == "nest") {
             const long lim = CJSON_NESTING_LIMIT;
-            for (int fam = 0; fam < 13; fam++) for (long d : { 1L, 2L, 3L, 4L, 50L, lim - 1, lim, lim + 1, lim + 2, 2 * lim, 100000L }) {
-                if (fam >= 7 && d == 100000L) d = 5 * lim + 3;
+            for (int fam = 0; fam < 16; fam++) for (long d : { 1L, 2L, 3L, 4L, 50L, lim - 1, lim, lim + 1, lim + 2, 2 * lim, 100000L }) {
+                if (fam >= 7 && fam <= 12 && d == 100000L) d = 5 * lim + 3; if (fam >= 13 && d == 100000L) d = 30000L;
                 if (!pool_take()) continue;
                 static Case c; c.kind = K_NEST; c.iv[1] = fam; c.iv[2] = d; c.len = 0; pool_run(c);
             }
@@ -395,7 +399,7 @@ struct XParse : Engine {
         if (L.errors != errs0) V("safety", "allocator-misuse", L.first_error);
     }
     std::string describe(const Case& c) override {
-        if (c.kind == K_NEST) { static const char* fn[] = { "'['^d", "'['^d ']'^d", "'{\"a\":'^d", "'{\"a\":'^d 1 '}'^d", "alternating [ {\"a\": ^d null closers", "'[1,'^d", "'[ '^d ' ]'^d", "'[' d x '[]' ']'", "'[' d x '{}' ']'", "'[' d x '[1]' ']'", "'{' d x '\"a\":{\"b\":2}' '}'", "'[' d x '[[],{}]' ']'", "'{' d x '\"k\":[]' '}'" }; return std::string("nesting family ") + fn[c.iv[1]] + " d=" + std::to_string(c.iv[2]); }
+        if (c.kind == K_NEST) { static const char* fn[] = { "'['^d", "'['^d ']'^d", "'{\"a\":'^d", "'{\"a\":'^d 1 '}'^d", "alternating [ {\"a\": ^d null closers", "'[1,'^d", "'[ '^d ' ]'^d", "'[' d x '[]' ']'", "'[' d x '{}' ']'", "'[' d x '[1]' ']'", "'{' d x '\"a\":{\"b\":2}' '}'", "'[' d x '[[],{}]' ']'", "'{' d x '\"k\":[]' '}'", "'[0,'^d 1 ']'^d", "'{\"a\":0,\"b\":'^d 1 '}'^d", "alternating later-position nesting ^d" }; return std::string("nesting family ") + fn[c.iv[1]] + " d=" + std::to_string(c.iv[2]); }
         return "\"" + printable(c.str().substr(0, 100)) + "\" (" + std::to_string(c.len) + " bytes)";
     }
 };
